@@ -30,7 +30,7 @@ RULE = ("correspondence: (a) real AndersonCD._solve vs skeleton on mock kernels:
 
 
 def correspondence(tier, rng):
-    n = 60 if tier == "quick" else 400
+    n = 400 if tier == "quick" else 3000
     cases, dist = harness_acd.make_cases(rng, n)
     r1 = tvlib.run_cases(cases, ["Skel.AndersonCD", "Skel.MockACD"], "C01a", shard=12, jobs=16)
     kc = kernels.gen_cd_kernels(rng, 60 if tier == "quick" else 300)
